@@ -689,10 +689,62 @@ fn invalid_utf8_case(dmk: &ExpectationMaker, cmk: &ExpectationMaker, idx: u64) -
     }
 }
 
+/// Which glob rule a document gets is decided by ITS format (Markdown: wildmatch, a backslash is a backslash; Cram:
+/// `\*`, `\?`, `\\` are literals) -- not by what else is parsed in the same run. One run of the binary over a Cram
+/// and a Markdown document in both orders (and each alone); the tests are chosen so that the two rules disagree.
+fn e2e_mixed_formats_case(prop: &str, idx: u64) -> CaseRec {
+    let order = idx % 4; // 0: t, md   1: md, t   2: md alone   3: t alone
+    let root = std::env::temp_dir().join(format!("scrut-verif-rules-e2e-{}-{idx}", std::process::id()));
+    let _ = std::fs::remove_dir_all(&root);
+    std::fs::create_dir_all(root.join("tmp")).unwrap();
+    // Cram: `\*` is a literal star
+    std::fs::write(root.join("c.t"), "cram-literal-star\n  $ echo 'star * here'\n  star \\* h* (glob)\n\ncram-star-needs-star\n  $ echo 'star x here'\n  star \\* h* (glob)\n").unwrap();
+    // Markdown: `\*` is a backslash followed by a wildcard
+    std::fs::write(root.join("m.md"), "# md-backslash-wildcard\n\n```scrut\n$ printf 'C:\\\\Users\\\\me\\n'\nC:\\* (glob)\n```\n\n# md-needs-backslash\n\n```scrut\n$ echo 'total: *'\ntotal: \\* (glob)\n```\n").unwrap();
+    let mut cmd = std::process::Command::new(std::env::var("SCRUT_BIN").unwrap_or("/verif/.build/repo-target/debug/scrut".into()));
+    cmd.arg("test").arg("-r").arg("json");
+    match order {
+        0 => { cmd.arg("c.t").arg("m.md"); }
+        1 => { cmd.arg("m.md").arg("c.t"); }
+        2 => { cmd.arg("m.md"); }
+        _ => { cmd.arg("c.t"); }
+    }
+    let out = cmd.current_dir(&root).env("TMPDIR", root.join("tmp")).env("NO_COLOR", "1").output().expect("run scrut");
+    let stdout = String::from_utf8_lossy(&out.stdout).to_string();
+    let json: Option<serde_json::Value> = stdout.find('[').and_then(|p| serde_json::from_str(&stdout[p..]).ok());
+    let mut got: Vec<(String, String)> = vec![];
+    if let Some(serde_json::Value::Array(items)) = &json {
+        for it in items {
+            let title = it.get("title").and_then(|t| t.as_str()).or_else(|| it.pointer("/testcase/title").and_then(|t| t.as_str())).unwrap_or("").to_string();
+            let kind = it.pointer("/result/kind").and_then(|k| k.as_str()).unwrap_or("?").to_string();
+            got.push((title, kind));
+        }
+    }
+    let want_of = |t: &str| match t {
+        "cram-literal-star" | "md-backslash-wildcard" => "success",
+        _ => "malformed_output",
+    };
+    let mut fails = vec![];
+    let expected_titles: Vec<&str> = match order {
+        0 => vec!["cram-literal-star", "cram-star-needs-star", "md-backslash-wildcard", "md-needs-backslash"],
+        1 => vec!["md-backslash-wildcard", "md-needs-backslash", "cram-literal-star", "cram-star-needs-star"],
+        2 => vec!["md-backslash-wildcard", "md-needs-backslash"],
+        _ => vec!["cram-literal-star", "cram-star-needs-star"],
+    };
+    let want: Vec<(String, String)> = expected_titles.iter().map(|t| (t.to_string(), want_of(t).to_string())).collect();
+    if got != want {
+        fails.push(("C04:glob-kind-depends-on-other-documents".to_string(), format!("documents in order {:?}: verdicts {:?}, expected {:?} (stderr {})", ["c.t m.md", "m.md c.t", "m.md", "c.t"][order as usize], got, want, String::from_utf8_lossy(&out.stderr).chars().take(200).collect::<String>())));
+    }
+    let _ = std::fs::remove_dir_all(&root);
+    CaseRec { op: "noop".into(), impl_out: "ok".into(), oracle_fail: fails.into_iter().filter(|(c, _)| c.starts_with(prop)).collect(), nontrivial: true, tags: vec![format!("e2e-mixed-formats:order={order}")] }
+}
+
 pub fn run(ctx: &Ctx, prop: &str) {
     let seed = ctx.seed;
     let dmk = default_maker();
     let cmk = cram_maker();
+    // the binary: the glob rule of a document follows its own format, whatever else is parsed in the run
+    ctx.run_stream("e2e-mixed-formats-exhaustive", 4, true, |idx| Some(e2e_mixed_formats_case(prop, idx)));
 
     // ---- glob, exhaustive: patterns over {a,b,*,?} up to 5 x lines over {a,b,*,?} up to 6
     let ga = ['a', 'b', '*', '?'];
